@@ -2,12 +2,14 @@ package c03
 
 import (
 	"bytes"
+	"context"
 	"fmt"
 	"testing"
 
 	"github.com/ipfs/go-cid"
 	"github.com/ipld/go-ipld-prime/datamodel"
 	"github.com/ipld/go-ipld-prime/node/basicnode"
+	"github.com/libp2p/go-libp2p/core/peer"
 	"pgregory.net/rapid"
 
 	"github.com/ipfs/go-graphsync"
@@ -37,6 +39,10 @@ type ReqSpec struct {
 type Case struct {
 	Base scen.Base `json:"base"`
 	Reqs []ReqSpec `json:"reqs"` // 1 or 2 requests, run one after the other
+	// Overlap (two requests): the responder pauses request 0 after PauseAt links; request 1 then arrives and
+	// runs to its end while request 0 is still in progress; request 0 is resumed afterwards
+	Overlap bool `json:"overlap"`
+	PauseAt int  `json:"pause_at"`
 }
 
 func genReq(t *rapid.T, nblocks int) ReqSpec {
@@ -62,6 +68,13 @@ func gen(t *rapid.T) Case {
 	n := rapid.IntRange(1, 2).Draw(t, "nreqs")
 	for i := 0; i < n; i++ {
 		c.Reqs = append(c.Reqs, genReq(t, len(c.Base.DAG.Blocks)))
+	}
+	if n == 2 && rapid.Bool().Draw(t, "overlap") {
+		c.Overlap = true
+		c.PauseAt = rapid.SampledFrom([]int{1, 1, 2, 2, 3, 4, 6}).Draw(t, "pauseat")
+		if rapid.Bool().Draw(t, "samescope") {
+			c.Reqs[1].DedupKey = c.Reqs[0].DedupKey
+		}
 	}
 	return c
 }
@@ -132,24 +145,33 @@ func judge(c Case) *pbt.Verdict {
 		return v
 	}
 
-	type got struct{ msgs []*sim.Envelope }
-	results := make([]got, len(c.Reqs))
+	var msgs []*sim.Envelope
 	ro := sim.Run(outerT, func(w *sim.World) {
 		rs := w.AddInstance(scen.RespID, sim.NewStore(respStore, true))
 		scen.ValidateAll(rs)
 		w.AddScripted(scen.ReqID)
+		if c.Overlap {
+			rs.GS.RegisterOutgoingBlockHook(func(_ peer.ID, r graphsync.RequestData, blk graphsync.BlockData, ha graphsync.OutgoingBlockHookActions) {
+				if r.ID() == reqID(0) && blk.Index() == int64(c.PauseAt) {
+					ha.PauseResponse()
+				}
+			})
+		}
 		for i, r := range c.Reqs {
 			exts, _ := r.exts(b)
 			req := gsmsg.NewRequest(reqID(i), b.Root, c.Base.Sel.Node(), graphsync.Priority(i), exts...)
-			start := len(w.Net.Sent)
 			if err := w.Net.Inject(scen.ReqID, scen.RespID, gsmsg.NewMessage(map[graphsync.RequestID]gsmsg.GraphSyncRequest{req.ID(): req}, nil, nil)); err != nil {
 				panic(err)
 			}
 			w.Quiesce()
-			for _, e := range w.Net.Sent[start:] {
-				if e.From == scen.RespID {
-					results[i].msgs = append(results[i].msgs, e)
-				}
+		}
+		if c.Overlap {
+			_ = rs.GS.Unpause(context.Background(), reqID(0))
+			w.Quiesce()
+		}
+		for _, e := range w.Net.Sent {
+			if e.From == scen.RespID {
+				msgs = append(msgs, e)
 			}
 		}
 	})
@@ -169,13 +191,20 @@ func judge(c Case) *pbt.Verdict {
 		seenC[l.Cid] = true
 	}
 	anyExt := false
-	for i, r := range c.Reqs {
+	for _, r := range c.Reqs {
 		if r.Skip >= 0 || r.HasCids || r.DedupKey != "" {
 			anyExt = true
 		}
-		if f := judgeOne(i, r, b, respStore, ref, results[i].msgs); f != "" {
-			return v.Failf("request %d: %s", i, f)
-		}
+	}
+	f, overlapped, scopeHit := judgeAll(c, b, respStore, ref, msgs)
+	if f != "" {
+		return v.Failf("%s", f)
+	}
+	if overlapped {
+		v.Label("request-arrives-while-another-is-in-progress")
+	}
+	if scopeHit {
+		v.Label("block-withheld-because-in-progress-request-sent-it")
 	}
 	if missing {
 		v.Label("missing-link")
@@ -194,126 +223,175 @@ func judge(c Case) *pbt.Verdict {
 	return v
 }
 
-func judgeOne(i int, r ReqSpec, b *dagen.Built, respStore map[cid.Cid][]byte, ref *dagen.Ref, msgs []*sim.Envelope) string {
-	id := reqID(i)
-	_, dns := r.exts(b)
-	// collect this request's responses in send order
-	type entry struct {
-		c   cid.Cid
-		a   graphsync.LinkAction
-		msg int
+// judgeAll replays the responder's messages in wire order against a model of the deduplication scopes: a
+// scope (the default one, or one per dedup key) remembers, per link, which requests in progress have
+// traversed it as present and which have carried its block; a request's entries leave the scope with its
+// terminal status.
+func judgeAll(c Case, b *dagen.Built, respStore map[cid.Cid][]byte, ref *dagen.Ref, msgs []*sim.Envelope) (fail string, overlapped, scopeHit bool) {
+	n := len(c.Reqs)
+	idx := map[graphsync.RequestID]int{}
+	dns := make([]*cid.Set, n)
+	for i, r := range c.Reqs {
+		idx[reqID(i)] = i
+		_, dns[i] = r.exts(b)
 	}
-	var entries []entry
-	var statuses []graphsync.ResponseStatusCode
-	blocksPerMsg := []map[cid.Cid][]byte{}
-	for mi, e := range msgs {
+	scopeOf := func(i int) string {
+		if c.Reqs[i].DedupKey != "" {
+			return "key:" + c.Reqs[i].DedupKey
+		}
+		return "default"
+	}
+	type sets struct{ trav, carried map[int]bool }
+	scopes := map[string]map[cid.Cid]*sets{}
+	at := func(sc string, k cid.Cid) *sets {
+		if scopes[sc] == nil {
+			scopes[sc] = map[cid.Cid]*sets{}
+		}
+		if scopes[sc][k] == nil {
+			scopes[sc][k] = &sets{map[int]bool{}, map[int]bool{}}
+		}
+		return scopes[sc][k]
+	}
+	started := make([]bool, n)
+	ended := make([]bool, n)
+	pos := make([]int, n) // entries seen so far
+	statuses := make([][]graphsync.ResponseStatusCode, n)
+	anyMissing := make([]bool, n)
+	rootMissing := len(ref.Loads) > 0 && !ref.Loads[0].Present
+	for _, e := range msgs {
 		bm := map[cid.Cid][]byte{}
 		for _, blk := range e.Msg.Blocks() {
 			bm[blk.Cid()] = blk.RawData()
 		}
-		blocksPerMsg = append(blocksPerMsg, bm)
+		justified := map[cid.Cid]bool{}
 		for _, rsp := range e.Msg.Responses() {
-			if rsp.RequestID() != id {
-				return fmt.Sprintf("response for unknown request id %s", rsp.RequestID())
+			i, ok := idx[rsp.RequestID()]
+			if !ok {
+				return fmt.Sprintf("response for unknown request id %s", rsp.RequestID()), overlapped, scopeHit
 			}
-			rsp.Metadata().Iterate(func(c cid.Cid, a graphsync.LinkAction) { entries = append(entries, entry{c, a, mi}) })
-			statuses = append(statuses, rsp.Status())
+			r := c.Reqs[i]
+			if ended[i] {
+				return fmt.Sprintf("request %d: response after its terminal status (statuses %v, then %s)", i, statuses[i], rsp.Status()), overlapped, scopeHit
+			}
+			if !started[i] {
+				started[i] = true
+				for j := 0; j < n; j++ {
+					if j != i && started[j] && !ended[j] {
+						overlapped = true
+					}
+				}
+				if r.Malformed == "" && r.HasCids {
+					// the request's do-not-send list enters its scope when the request is set up
+					_ = dns[i].ForEach(func(k cid.Cid) error { at(scopeOf(i), k).trav[i] = true; return nil })
+				}
+			}
+			statuses[i] = append(statuses[i], rsp.Status())
+			var entries []struct {
+				c cid.Cid
+				a graphsync.LinkAction
+			}
+			rsp.Metadata().Iterate(func(k cid.Cid, a graphsync.LinkAction) {
+				entries = append(entries, struct {
+					c cid.Cid
+					a graphsync.LinkAction
+				}{k, a})
+			})
+			if r.Malformed == "" && !rootMissing {
+				for _, en := range entries {
+					k := pos[i]
+					pos[i]++
+					if k >= len(ref.Loads) {
+						return fmt.Sprintf("request %d: more metadata entries than the traversal visits links (%d)", i, len(ref.Loads)), overlapped, scopeHit
+					}
+					l := ref.Loads[k]
+					if !en.c.Equals(l.Cid) {
+						return fmt.Sprintf("request %d: metadata entry %d is %s, traversal visits %s at %q", i, k, en.c, l.Cid, l.Path), overlapped, scopeHit
+					}
+					wantA := graphsync.LinkActionPresent
+					if !l.Present {
+						wantA = graphsync.LinkActionMissing
+						anyMissing[i] = true
+					}
+					if en.a != wantA {
+						return fmt.Sprintf("request %d: metadata entry %d (%s at %q) marked %s, want %s", i, k, l.Cid, l.Path, en.a, wantA), overlapped, scopeHit
+					}
+					if !l.Present {
+						continue
+					}
+					st := at(scopeOf(i), l.Cid)
+					excluded := k+1 <= r.Skip || dns[i].Has(l.Cid)
+					byOther := false
+					for j := range st.carried {
+						if j != i {
+							byOther = true
+						}
+					}
+					must := !excluded && len(st.trav) == 0
+					forbidden := excluded || len(st.carried) > 0
+					data, inMsg := bm[l.Cid]
+					switch {
+					case must && !inMsg:
+						return fmt.Sprintf("request %d: block %s (entry %d, path %q) not carried in the message holding its metadata", i, l.Cid, k, l.Path), overlapped, scopeHit
+					case inMsg && !justified[l.Cid] && forbidden:
+						return fmt.Sprintf("request %d: block %s (entry %d) carried although excluded (skip=%d, do-not-send=%v) or already sent in its scope by a request still in progress (%v)", i, l.Cid, k, r.Skip, dns[i].Has(l.Cid), st.carried), overlapped, scopeHit
+					}
+					if inMsg && !justified[l.Cid] {
+						if !bytes.Equal(data, respStore[l.Cid]) {
+							return fmt.Sprintf("request %d: block %s carried with bytes differing from the store's", i, l.Cid), overlapped, scopeHit
+						}
+						justified[l.Cid] = true
+						st.carried[i] = true
+					} else if !inMsg && byOther && !excluded {
+						scopeHit = true
+					}
+					st.trav[i] = true
+				}
+			}
+			if rsp.Status().IsTerminal() {
+				ended[i] = true
+				for _, m := range scopes[scopeOf(i)] {
+					delete(m.trav, i)
+					delete(m.carried, i)
+				}
+			}
 		}
-	}
-	if len(statuses) == 0 {
-		return "no response at all"
-	}
-	terminal := 0
-	for k, s := range statuses {
-		if s.IsTerminal() {
-			terminal++
-			if k != len(statuses)-1 {
-				return fmt.Sprintf("terminal status %s is not last (statuses %v)", s, statuses)
+		for k := range bm {
+			if !justified[k] {
+				return fmt.Sprintf("block %s carried in a message without a metadata entry that may carry it", k), overlapped, scopeHit
 			}
 		}
 	}
-	if terminal != 1 {
-		return fmt.Sprintf("%d terminal statuses (statuses %v)", terminal, statuses)
-	}
-	final := statuses[len(statuses)-1]
-	if r.Malformed != "" {
-		if final != graphsync.RequestFailedUnknown {
-			return fmt.Sprintf("malformed %s extension: final status %s, want RequestFailedUnknown", r.Malformed, final)
+	for i, r := range c.Reqs {
+		if len(statuses[i]) == 0 {
+			return fmt.Sprintf("request %d: no response at all", i), overlapped, scopeHit
 		}
-		return ""
-	}
-	// root missing
-	if len(ref.Loads) > 0 && !ref.Loads[0].Present {
-		if final != graphsync.RequestFailedContentNotFound {
-			return fmt.Sprintf("root block missing: final status %s, want RequestFailedContentNotFound", final)
+		if !ended[i] {
+			return fmt.Sprintf("request %d: no terminal status (statuses %v)", i, statuses[i]), overlapped, scopeHit
 		}
-		return ""
-	}
-	// metadata mirrors the traversal
-	if len(entries) != len(ref.Loads) {
-		return fmt.Sprintf("%d metadata entries, traversal visits %d links", len(entries), len(ref.Loads))
-	}
-	anyMissing := false
-	earlier := map[cid.Cid]bool{} // cid occurred earlier in this request's traversal (present)
-	carried := map[cid.Cid]bool{}
-	skip := r.Skip
-	for k, l := range ref.Loads {
-		e := entries[k]
-		if !e.c.Equals(l.Cid) {
-			return fmt.Sprintf("metadata entry %d is %s, traversal visits %s at %q", k, e.c, l.Cid, l.Path)
-		}
-		wantA := graphsync.LinkActionPresent
-		if !l.Present {
-			wantA = graphsync.LinkActionMissing
-			anyMissing = true
-		}
-		if e.a != wantA {
-			return fmt.Sprintf("metadata entry %d (%s at %q) marked %s, want %s", k, l.Cid, l.Path, e.a, wantA)
-		}
-		if !l.Present {
-			continue
-		}
-		excluded := k+1 <= skip || dns.Has(l.Cid)
-		data, inMsg := blocksPerMsg[e.msg][l.Cid]
-		must := !excluded && !earlier[l.Cid]
-		may := !excluded && !carried[l.Cid]
+		final := statuses[i][len(statuses[i])-1]
 		switch {
-		case must && !inMsg:
-			return fmt.Sprintf("block %s (entry %d, path %q) not carried in the message holding its metadata", l.Cid, k, l.Path)
-		case inMsg && !carried[l.Cid] && !may:
-			return fmt.Sprintf("block %s (entry %d) carried although excluded (skip=%d, do-not-send=%v)", l.Cid, k, skip, dns.Has(l.Cid))
-		}
-		if inMsg && may && !carried[l.Cid] {
-			if !bytes.Equal(data, respStore[l.Cid]) {
-				return fmt.Sprintf("block %s carried with bytes differing from the store's", l.Cid)
+		case r.Malformed != "":
+			if final != graphsync.RequestFailedUnknown {
+				return fmt.Sprintf("request %d: malformed %s extension: final status %s, want RequestFailedUnknown", i, r.Malformed, final), overlapped, scopeHit
 			}
-			carried[l.Cid] = true
-		}
-		earlier[l.Cid] = true
-	}
-	// no other block, none twice
-	count := map[cid.Cid]int{}
-	for _, bm := range blocksPerMsg {
-		for c := range bm {
-			count[c]++
-			if !carried[c] {
-				return fmt.Sprintf("block %s carried but not expected", c)
+		case rootMissing:
+			if final != graphsync.RequestFailedContentNotFound {
+				return fmt.Sprintf("request %d: root block missing: final status %s, want RequestFailedContentNotFound", i, final), overlapped, scopeHit
+			}
+		default:
+			if pos[i] != len(ref.Loads) {
+				return fmt.Sprintf("request %d: %d metadata entries, traversal visits %d links", i, pos[i], len(ref.Loads)), overlapped, scopeHit
+			}
+			want := graphsync.RequestCompletedFull
+			if anyMissing[i] {
+				want = graphsync.RequestCompletedPartial
+			}
+			if final != want {
+				return fmt.Sprintf("request %d: final status %s, want %s", i, final, want), overlapped, scopeHit
 			}
 		}
 	}
-	for c, n := range count {
-		if n > 1 {
-			return fmt.Sprintf("block %s carried in %d messages", c, n)
-		}
-	}
-	want := graphsync.RequestCompletedFull
-	if anyMissing {
-		want = graphsync.RequestCompletedPartial
-	}
-	if final != want {
-		return fmt.Sprintf("final status %s, want %s", final, want)
-	}
-	return ""
+	return "", overlapped, scopeHit
 }
 
 var def = pbt.Def[Case]{Name: "responder-mirror", Gen: gen, Run: judge}
